@@ -12,7 +12,7 @@ env.import_pytrs()
 ID = "C16"
 MAXLEN = 300
 RULE = (
-    f"Strings of at most {MAXLEN} characters: (pumping) prefix + unit^n + suffix for 15 description-level and 10 tract-level anchor contexts (text start, after a "
+    f"Strings of at most {MAXLEN} characters: (pumping) prefix + unit^n + suffix for 26 description-level and 15 tract-level anchor contexts (text start, after a "
     "Twp/Rge, after 'Sec N', after 'Sec N:', inside a block, after 'Lot N', after a half, after a spelled fraction word, ...) x "
     "every atom of the patterns' vocabulary (each whitespace character, each dead-space punctuation character, connectives, "
     "keywords, direction letters, digits, fraction glyphs, P.M. fragments), alone and followed by a space - enumerated - and "
@@ -32,6 +32,9 @@ PREFIXES = {
     "after_fraction_word": "T154N-R97W Sec 14: North Half", "after_twp_only": "T154N", "in_twprge_words": "Township 154 North, Range",
     "after_of": "T154N-R97W NE/4 of", "sec_first": "Sec 14", "after_lot_div": "T154N-R97W Sec 14: N/2 of Lot 1",
     "after_sections": "T154N-R97W Sections 1 - 3", "after_glyph": "T154N-R97W Sec 14: N½",
+    "after_lot_paren": "T154N-R97W Sec 14: Lot 1 (", "after_lot_bracket": "T154N-R97W Sec 14: Lots 1 - 3 [", "twp_no_dir": "Township 154",
+    "t_no_dir": "T154", "twp_abbr_no_dir": "Twp. 154", "twprge_no_ew": "T154N-R97", "after_range_word": "T154N-R", "sec_word": "T154N-R97W Sec",
+    "after_sec_of": "NE/4 of Section 14 of", "after_through": "T154N-R97W Sec 14: Lots 1 -", "after_acreage": "T154N-R97W Sec 14: Lot 1(40.0)",
 }
 ATOMS = [" ", "\t", "\n", "\r", ".", ",", ";", ":", "-", "–", "—", "/", "&", "|", "_", "~", "(", ")", "[", "]", "and", "to", "thru", "through",
          "of", "the", "all", "in", "Sec", "Section", "§", "Lot", "Lots", "L", "T", "R", "N", "S", "E", "W", "NE", "N/2", "NE/4", "½", "¼",
@@ -59,7 +62,8 @@ def enum_pump(tier):
 
 
 TRACT_PREFIXES = {"t_start": "", "t_quarter": "NE/4", "t_half": "N/2", "t_glyph": "N½SW¼", "t_lot": "Lot 1", "t_lot_div": "N/2 of Lot 1",
-                  "t_word": "North Half", "t_lots": "Lots 1 - 3", "t_acres": "Lot 1(40.0)", "t_prose": "That part of the NE/4"}
+                  "t_word": "North Half", "t_lots": "Lots 1 - 3", "t_acres": "Lot 1(40.0)", "t_prose": "That part of the NE/4",
+                  "t_lot_paren": "Lot 1 (", "t_lot_bracket": "Lots 1 - 3 [", "t_bare_half": "N", "t_dir_word": "North", "t_half_of": "N/2 of"}
 TRACT_SUFFIXES = ["", "x", " NE/4", " Lot 2", ", S/2"]
 PREFIXES.update(TRACT_PREFIXES)
 
